@@ -19,12 +19,12 @@ import (
 var c05Rects = []image.Rectangle{image.Rect(0, 0, 64, 64), image.Rect(0, 0, 40, 100), image.Rect(7, 13, 39, 61)}
 var c05VBs = []ivg.ViewBox{ivg.DefaultViewBox, {MinX: 0, MinY: 0, MaxX: 48, MaxY: 48}, {MinX: -10, MinY: 5, MaxX: 30, MaxY: 25}, {MinX: 0.125, MinY: 0.125, MaxX: 0.75, MaxY: 1.25}}
 
-var c05Tuples = [2][6]float32{{3, -5, 7.5, 2.25, -4, 6}, {-2.5, 4, 1, -6.5, 8, 0.5}}
+var c05Tuples = [3][6]float32{{3, -5, 7.5, 2.25, -4, 6}, {-2.5, 4, 1, -6.5, 8, 0.5}, {1000.5, -0.001953125, -4096, 300, 0.015625, -77.25}}
 
 // letters: the 18 non-arc verbs + Y + y, each with two argument tuples
 var c05Letters = func() []rec.Call {
 	var ls []rec.Call
-	for t := 0; t < 2; t++ {
+	for t := 0; t < 3; t++ { // the third tuple (large and tiny magnitudes) is used by the thorough tier only
 		for m := rec.MAbsMove; m <= rec.MRelC; m++ {
 			ls = append(ls, rec.Call{M: m, A: c05Tuples[t]})
 		}
@@ -48,7 +48,15 @@ func c05Depth(tier string) int {
 }
 
 func init() {
-	nl := len(c05Letters)
+	nlAll := len(c05Letters)
+	nlQuick := nlAll * 2 / 3
+	nlOf := func(tier string) int {
+		if tier == "thorough" {
+			return nlAll
+		}
+		return nlQuick
+	}
+	nl := nlQuick
 	mc.Register(&mc.Check{
 		ID:    "C05",
 		Level: "model_checking",
@@ -56,8 +64,9 @@ func init() {
 			"Per step: one rasteriser call of the right kind per operation (ClosePath before the MoveTo of a close-and-move; ClosePath + Draw(rect, paint, (0,0)) exactly once at the end); every coordinate equals the float64 reference computed from the pen / sub-path start / previous control point the recording rasteriser holds (|delta| <= 8 ulp at the magnitude of the terms). " +
 			"states = sequences executed, transitions = drawing calls; non-trivial = sequence containing a smooth or relative operation",
 		Assumptions: []string{"recording rasteriser has the pen semantics of golang.org/x/image/vector", "tolerance 8 float32 ulp at the magnitude of the largest term"},
-		Units:       func(tier string) int { return nl*len(c05VBs) + 1 },
+		Units:       func(tier string) int { return nlOf(tier)*len(c05VBs) + 1 },
 		Run: func(w *mc.W, u int) {
+			nl := nlOf(w.Tier)
 			st := &c05State{w: w}
 			if u == nl*len(c05VBs) {
 				st.runs()
@@ -108,8 +117,11 @@ func (st *c05State) runs() {
 	for vb := range c05VBs {
 		for r := range c05Rects {
 			for l := range c05Letters {
+				if !st.w.Thorough && l >= len(c05Letters)*2/3 {
+					break
+				}
 				st.check(&c05Case{VB: vb, Rect: r, Letters: []int{l}, Reps: 33})
-				st.check(&c05Case{VB: vb, Rect: r, Letters: []int{l, (l + 7) % len(c05Letters)}, Reps: 17})
+				st.check(&c05Case{VB: vb, Rect: r, Letters: []int{l, (l + 7) % (len(c05Letters) * 2 / 3)}, Reps: 17})
 			}
 		}
 	}
